@@ -749,8 +749,14 @@ class Simulation:
     def _data_or_file(self, what, source, frequency, data):
         """Return data or file-name for given what, source, and frequency."""
         if self.file_dir:
+            # Name the file by the positions of source and frequency in the
+            # survey, not by their keys: keys are arbitrary user strings, and
+            # joining them with '_' is not unique (('Tx', 'A_f1') and
+            # ('Tx_A', 'f1') would share one file).
+            isrc = list(self.survey.sources.keys()).index(source)
+            ifreq = list(self.survey.frequencies.keys()).index(frequency)
             fname = os.path.join(
-                self.file_dir, f"{what}_{source}_{frequency}.h5")
+                self.file_dir, f"{what}_{isrc}_{ifreq}.h5")
             io.save(fname, data=data, verb=0)
             return fname
         else:
